@@ -2,3 +2,5 @@
    minters) and SaleOeCorr (three open-edition minters and the base minter). *)
 From LP Require Export SaleCorr.
 From LP Require Export SaleOeCorr.
+(* part 3 (token-merge minter): the C17 case vocabulary and checker *)
+From LP Require Export C17Corr.
